@@ -5,15 +5,13 @@ from props.srvchecks import *
 def run(rep, tier, seed):
     rep.need_witness('c03_quiescent_states', 'c03_quiescent_with_load')
     acts = ('connect', 'finish')
-    if tier == 'quick':
-        runs = [('W1', dict(W=1, L=1, turns=4, env_per_turn=2, max_conns=4, actions=acts, checks=(chk_c03,))),
-                ('W1-race', dict(W=1, L=1, turns=3, env_per_turn=2, max_conns=3, actions=acts, race=True, pickup=True, checks=(chk_c03,))),
-                ('W2', dict(W=2, L=1, turns=3, env_per_turn=2, max_conns=4, actions=acts, checks=(chk_c03,)))]
-    else:
-        runs = [('W1', dict(W=1, L=1, turns=5, env_per_turn=2, max_conns=5, actions=acts, checks=(chk_c03,))),
-                ('W1-race', dict(W=1, L=1, turns=4, env_per_turn=2, max_conns=4, actions=acts, race=True, pickup=True, checks=(chk_c03,))),
-                ('W2', dict(W=2, L=2, turns=4, env_per_turn=2, max_conns=5, actions=acts, pickup=True, checks=(chk_c03,))),
-                ('W3', dict(W=3, L=1, turns=3, env_per_turn=3, max_conns=5, actions=acts, checks=(chk_c03,)))]
+    q = tier == 'quick'
+    runs = [('W1', dict(W=1, L=1, turns=14, env_per_turn=3, max_conns=7 if q else 9, actions=acts, checks=(chk_c03,))),
+            ('W1-race', dict(W=1, L=1, turns=12, env_per_turn=2, max_conns=5 if q else 7, actions=acts, race=True, pickup=True, checks=(chk_c03,))),
+            ('W2', dict(W=2, L=1, turns=12, env_per_turn=2, max_conns=5 if q else 6, actions=acts, pickup=True, checks=(chk_c03,)))]
+    if not q:
+        runs += [('W2-L2', dict(W=2, L=2, turns=10, env_per_turn=2, max_conns=5, actions=acts, checks=(chk_c03,))),
+                 ('W3', dict(W=3, L=1, turns=10, env_per_turn=3, max_conns=6, actions=acts, checks=(chk_c03,)))]
     run_accept_property(rep, 'C03', runs, tier, seed)
 
 
